@@ -969,18 +969,19 @@ def numText (m : NumMatch) : List Char :=
   | some d2 => m.int ++ '.' :: d2
   | none => m.int
 
-/-- **C16.dot_means_float**: (1) digits `.` digits, alone in a text, is one NUMBER token holding a float, kept as
-the decimal text with ASCII digits; (2) that text denotes the rational `digitsVal (a ++ b) / 10 ^ b.length`
-(which the platform's `float()` rounds); (3) for every NUMBER match the token holds a float iff the matched
-text contains a dot, and an integer otherwise. -/
+/-- **C16.dot_means_float**: (1) digits `.` digits, alone in a text, is one NUMBER token holding a float: its
+decimal text with ASCII digits and the double `literalFloat a b`; (2) that text denotes the rational
+`digitsVal (a ++ b) / 10 ^ b.length`, and the double is this rational correctly rounded (`Props/C16Float.literalFloat_spec`:
+nearest, ties to even, `inf` from `2^1024 - 2^970` on - inside the model, no longer delegated to the platform);
+(3) for every NUMBER match the token holds a float iff the matched text contains a dot, and an integer otherwise. -/
 theorem dot_means_float (cfg : LexCfg) :
     (∀ a b, a ≠ [] → b ≠ [] → AllDigits cfg.chars a → AllDigits cfg.chars b →
       lexAll cfg (a ++ '.' :: b) =
-        .ok [⟨.number, .flt (asciiDigits cfg.chars a ++ '.' :: asciiDigits cfg.chars b), 0⟩] ∧
+        .ok [⟨.number, .flt (asciiDigits cfg.chars a ++ '.' :: asciiDigits cfg.chars b) (literalFloat cfg.chars a b), 0⟩] ∧
       decimalOf (asciiDigits cfg.chars a ++ '.' :: asciiDigits cfg.chars b) =
         (digitsVal cfg.chars (a ++ b), b.length)) ∧
     (∀ pw rest m pos t len, matchNumber cfg.chars pw rest = some m → convNumber cfg m pos = .tok t len →
-      ('.' ∈ numText m ↔ ∃ l, t.val = .flt l) ∧ ('.' ∉ numText m ↔ t.val = .int (digitsVal cfg.chars m.int))) := by
+      ('.' ∈ numText m ↔ ∃ l w, t.val = .flt l w) ∧ ('.' ∉ numText m ↔ t.val = .int (digitsVal cfg.chars m.int))) := by
   constructor
   · intro a b hna hnb ha hb
     refine ⟨?_, decimalOf_ascii cfg.chars ha hb⟩
@@ -1144,7 +1145,7 @@ example : lexAll asciiCfg ['\'', 'a', '\\', '\'', 'b', '\''] = .ok [strTok ['a',
 example : lexAll asciiCfg ['`', '\\', '`'] = .error (.lexical ['`'] 0) := by decide +kernel
 -- `1.50 mod x` ; `a->b` (the longer operator first) ; `and(`
 example : lexAll asciiCfg ['1', '.', '5', '0', ' ', 'm', 'o', 'd', ' ', 'x'] =
-    .ok [⟨.number, .flt ['1', '.', '5', '0'], 0⟩, ⟨.op ['m', 'o', 'd'], .text ['m', 'o', 'd'], 5⟩,
+    .ok [⟨.number, .flt ['1', '.', '5', '0'] 0x3FF8000000000000, 0⟩, ⟨.op ['m', 'o', 'd'], .text ['m', 'o', 'd'], 5⟩,
          ⟨.keyword, .text ['x'], 9⟩] := by decide +kernel
 example : lexAll asciiCfg ['a', '-', '>', 'b'] =
     .ok [⟨.keyword, .text ['a'], 0⟩, ⟨.op ['-', '>'], .text ['-', '>'], 1⟩, ⟨.keyword, .text ['b'], 3⟩] := by
